@@ -17,7 +17,7 @@ def base_workloads(tier, rng, n_random=0, profile="small"):
     """a few fixed, feature-rich workloads + seeded random ones"""
     wls = [
         ({"seed": 11, "n_chr": 3, "groups": 3, "paralogs": 1, "novel": 2, "antisense": 1, "readthrough": 2, "intergenic_multi": 2,
-          "long_locus": 1, "ambig_multi": 4},
+          "long_locus": 1, "ambig_multi": 4, "twin_chr": 2, "novel_locus": 1},
          {"read_group": "tag", "count_exons": True}),
         ({"seed": 12, "n_chr": 4, "groups": 12, "group_missing": 5, "paralogs": 2, "novel": 2, "n_bams": 2,
           "dup_records": 1, "equal_len": 1, "pre_ids": 2, "novel_gene_overlap": 1, "novel_cov": 6, "ambig_multi": 3},
@@ -105,6 +105,8 @@ def structured_cells(hashseeds=(0, 1, 2, 3, 4, 5, 6, 7), threads=(1, 2, 3, 16)):
     cells.append(dict(g, high_memory=True, note="high_memory"))
     cells.append(dict(g, high_memory=True, threads=2, sched={"policy": "spread", "seed": 2}, note="high_memory"))
     cells.append(dict(g, keep_tmp=True, note="keep_tmp"))
+    cells.append(dict(g, rerun=True, note="rerun"))
+    cells.append(dict(g, rerun=True, keep_tmp=True, threads=2, sched={"policy": "spread", "seed": 3}, note="rerun"))
     cells.append(dict(g, bufsize=64, note="bufsize"))
     cells.append(dict(g, hashseed=hashseeds[-1], threads=3, high_memory=True, sched={"policy": "pct", "seed": 5},
                       note="combo"))
@@ -127,6 +129,8 @@ def cell_opts(opts, cell):
 
 def job_args(spec, opts, cell, **kw):
     a = {"spec": spec, "opts": cell_opts(opts, cell), "sched": cell["sched"], "bufsize": cell.get("bufsize", 8192)}
+    if cell.get("rerun"):
+        a["rerun"] = True
     a.update(kw)
     return a
 
